@@ -79,6 +79,8 @@ static void after(long ret, int err) {
   if (bad) fprintf(fops, "UD bad%s gp=%llu\n", bad == 2 ? "-surviving-pointer" : "", badgp); else fprintf(fops, "UD ok\n");
   fprintf(fc, "UD ok\n");
   fflush(fops); fflush(fc);
+  /* hwloc's own assert-based checker must accept every state of a history too (an abort ends the harness: the engine reports it) */
+  hwloc_topology_check(topo);
 }
 
 static hwloc_bitmap_t set_from_hex(const char *s) {
